@@ -4,7 +4,7 @@
    data (signed tensors included), on the iteration caps or on when the loops stop.
    vnn v = every entry of the vector >= 0;  mnn M = every entry of the matrix >= 0;  vge eps v = every entry >= eps. *)
 From Coq Require Import List Arith Bool Reals QArith Lra.
-From TLV Require Import Base.Shape Base.PyList Base.Tensor Base.Ops Model.Nonneg Model.NonnegSign Model.NonnegOptions Proofs.NonnegProofs Proofs.NonnegProofs2 Proofs.NonnegSignProofs Proofs.NonnegOptionsProofs.
+From TLV Require Import Base.Shape Base.PyList Base.Tensor Base.Ops Model.Nonneg Model.NonnegSign Model.NonnegFlow Model.NonnegOptions Proofs.NonnegProofs Proofs.NonnegProofs2 Proofs.NonnegSignProofs Proofs.NonnegFlowProofs Proofs.NonnegOptionsProofs.
 Import ListNotations.
 Open Scope R_scope.
 
@@ -297,6 +297,21 @@ Theorem C10_sign_analysis_sound : forall (prog : list stmt) (a0 : aenv) (ret : s
 Proof. exact sign_verdict_sound. Qed.
 Print Assumptions C10_sign_analysis_sound.
 
+(* ---- corr:C10-flow: the FLOW-SENSITIVE analysis (Model/NonnegFlow.v) on structured bodies: sequence, choice (if / try), loops with break, blocks
+        (inlined closures, callees, methods), return; strong updates for assignments, weak ones for in-place updates; loop invariants are
+        computed by iteration and CHECKED to be inductive.  Used for active_set_nnls, initialize_tucker, parafac2 (with its closure, the
+        initialiser, non_negative_parafac_hals and the line-search method inlined) and constrained_parafac (initialiser, admm, proximal_operator inlined). *)
+Theorem C10_flow_exec_sound : forall (fuel : nat) (c : cmd) (a : aenv) (st : state) (o : outc) (st' : state),
+  gamma a st -> exec c st o st' -> okres (aexec fuel c a) o st'.
+Proof. exact aexec_sound. Qed.
+Print Assumptions C10_flow_exec_sound.
+
+(* verdict 0 => every value the body can return, from any initial state satisfying the assumptions on the parameters, is entrywise >= 0 *)
+Theorem C10_flow_analysis_sound : forall (c : cmd) (a0 : aenv), flow_verdict c a0 = 0%nat ->
+  forall (st0 st : state) (l : list R), gamma a0 st0 -> exec c st0 (ORet l) st -> vnn l.
+Proof. exact flow_verdict_sound. Qed.
+Print Assumptions C10_flow_analysis_sound.
+
 (* ---- the entry points as functions of their RAW options (Model/NonnegOptions.v): fixed_modes (None / list, the last mode dropped by
         non_negative_parafac and non_negative_tucker_hals), nn_modes ('all' / None / list), sparsity_coefficients (None / scalar / list, reset on
         fixed modes) are parsed by the model; executed against the implementation with the raw options (OMuCpE, OHalsCpE, OTkHalsE) *)
@@ -388,3 +403,15 @@ Proof. exact reach_nonvacuous. Qed.
 (* sharpness of NoDup in C10_last_mode_updated: fixed_modes = [2; 2] on an order-3 tensor keeps mode 2 fixed (list.remove drops one occurrence) *)
 Example C10_repeated_fixed_mode_stays_fixed : unfix_last 3 [2; 2]%nat = [2]%nat /\ modes_of 3 (unfix_last 3 [2; 2]%nat) = [0; 1]%nat.
 Proof. exact unfix_last_repeated. Qed.
+(* flow sensitivity matters: x = clip(..); loop { x = x + data; x = clip(x, 0); maybe break }; return x is accepted by the flow-sensitive analysis,
+   rejected when the first clip is missing, and rejected by the flow-insensitive analysis in any case; the semantics is inhabited *)
+Example C10_flow_accepts : flow_verdict (mini_flow true) [SgPos] = 0%nat.
+Proof. exact flow_accepts. Qed.
+Example C10_flow_rejects : flow_verdict (mini_flow false) [SgPos] = 2%nat.
+Proof. exact flow_rejects. Qed.
+Example C10_flow_insensitive_rejects :
+  sign_verdict [SAssign [0%nat] (XClip XNonneg XAny); SAssign [0%nat] (XAdd (XVar 0%nat) XAny); SAssign [0%nat] (XClip XNonneg (XVar 0%nat))]
+               [SgPos] (XVar 0%nat) = 2%nat.
+Proof. exact flow_insensitive_rejects. Qed.
+Example C10_flow_semantics_inhabited : exists st l, exec (mini_flow true) (fun _ => []) (ORet l) st.
+Proof. exact flow_exec_inhabited. Qed.
